@@ -46,23 +46,26 @@ type startCase struct {
 	locale       string // none | supported | unsupported
 	viaEnv       bool
 	redisSecret  string // how a Redis password is supplied (C18): none | flag | env | uri
+	disco        string // shape of the discovery document: ok | noacr | emptyacr | nolocale | noalg
 }
 
 func baseCase() startCase {
 	return startCase{key: "ok", ingress: "https", clientID: true, jwk: "valid", wellKnown: "ok", mode: "standalone", redis: "none", cookieName: true, serverURL: "ok", domain: true,
-		defaultURL: "ok", secure: true, sameSite: "Lax", upstream: "none", shutdown: "ok", alg: "RS256", acr: "none", locale: "none", redisSecret: "none"}
+		defaultURL: "ok", secure: true, sameSite: "Lax", upstream: "none", shutdown: "ok", alg: "RS256", acr: "none", locale: "none", redisSecret: "none", disco: "ok"}
 }
 
 var c20Dims = []struct {
 	name string
 	vals []string
 }{
-	{"key", []string{"absent", "short", "notb64", "crlf"}}, {"ingress", []string{"http-localhost", "absent", "ftp", "garbage", "nohost", "https+localhost"}},
+	{"key", []string{"absent", "short", "notb64", "crlf", "short31", "long33", "long64"}},
+	{"ingress", []string{"http-localhost", "absent", "ftp", "garbage", "nohost", "https+localhost", "http-localhost-upper", "http-localhost-prefix", "http-localhost+prefix", "http-remote"}},
 	{"clientID", []string{"false"}}, {"jwk", []string{"absent", "malformed"}}, {"secret", []string{"true"}}, {"wellKnown", []string{"absent", "unreachable"}},
 	{"mode", []string{"server", "proxy", "badmode"}}, {"redis", []string{"ok", "unreachable"}}, {"cookieName", []string{"false"}}, {"serverURL", []string{"bad"}},
 	{"domain", []string{"false"}}, {"defaultURL", []string{"bad"}}, {"secure", []string{"false"}}, {"sameSite", []string{"Bogus"}},
 	{"upstream", []string{"both", "iponly", "portonly", "port70000", "portneg"}}, {"shutdown", []string{"equal", "less"}}, {"alg", []string{"BOGUS", "ES256"}},
 	{"acr", []string{"supported", "legacy", "unsupported"}}, {"locale", []string{"supported", "unsupported"}}, {"redisSecret", []string{"flag", "env", "uri"}},
+	{"disco", []string{"noacr", "emptyacr", "nolocale", "noalg"}},
 }
 
 func (sc *startCase) set(name, v string) {
@@ -108,6 +111,8 @@ func (sc *startCase) set(name, v string) {
 		sc.locale = v
 	case "redisSecret":
 		sc.redisSecret = v
+	case "disco":
+		sc.disco = v
 	}
 }
 
@@ -151,11 +156,22 @@ func runC20(c *ctx) {
 	idp := newFakeIdp()
 	defer idp.close()
 	disco := httptest.NewServer(http.HandlerFunc(func(w http.ResponseWriter, rq *http.Request) {
-		json.NewEncoder(w).Encode(map[string]any{
+		doc := map[string]any{
 			"issuer": idp.issuer, "authorization_endpoint": idp.srv.URL + "/authorize", "token_endpoint": idp.srv.URL + "/token", "jwks_uri": idp.srv.URL + "/jwks",
 			"end_session_endpoint": idp.srv.URL + "/endsession", "acr_values_supported": []string{"idporten-loa-substantial", "idporten-loa-high"},
 			"ui_locales_supported": []string{"nb", "en"}, "id_token_signing_alg_values_supported": []string{"RS256"},
-		})
+		}
+		switch strings.Trim(rq.URL.Path, "/") { // the member a provider may legitimately leave out
+		case "noacr":
+			delete(doc, "acr_values_supported")
+		case "emptyacr":
+			doc["acr_values_supported"] = []string{}
+		case "nolocale":
+			delete(doc, "ui_locales_supported")
+		case "noalg":
+			delete(doc, "id_token_signing_alg_values_supported")
+		}
+		json.NewEncoder(w).Encode(doc)
 	}))
 	defer disco.Close()
 	if sharedClient == nil {
@@ -165,6 +181,7 @@ func runC20(c *ctx) {
 	jwkJSON, _ := json.Marshal(sharedClient.ClientJWK())
 	key32 := base64.StdEncoding.EncodeToString([]byte("0123456789abcdef0123456789abcdef"))
 	key16 := base64.StdEncoding.EncodeToString([]byte("0123456789abcdef"))
+	keyN := func(n int) string { return base64.StdEncoding.EncodeToString([]byte(strings.Repeat("0123456789abcdef", 5)[:n])) }
 
 	var cases []startCase
 	cases = append(cases, baseCase())
@@ -184,6 +201,28 @@ func runC20(c *ctx) {
 				cases = append(cases, sc2)
 			}
 		}
+	}
+	// combinations in which two settings interact: insecure cookies x every ingress shape; configured acr / locale / algorithm x every discovery shape
+	for _, ing := range c20Dims[1].vals {
+		sc := baseCase()
+		sc.secure = false
+		sc.ingress = ing
+		cases = append(cases, sc)
+	}
+	for _, dv := range []string{"ok", "noacr", "emptyacr", "nolocale", "noalg"} {
+		for _, a := range []string{"supported", "legacy", "unsupported"} {
+			sc := baseCase()
+			sc.disco, sc.acr = dv, a
+			cases = append(cases, sc)
+		}
+		for _, lc := range []string{"supported", "unsupported"} {
+			sc := baseCase()
+			sc.disco, sc.locale = dv, lc
+			cases = append(cases, sc)
+		}
+		scp := baseCase() // an SSO proxy never reads the discovery document
+		scp.mode, scp.redis, scp.disco, scp.acr = "proxy", "ok", dv, "supported"
+		cases = append(cases, scp)
 	}
 	nPairs := 60
 	if c.thorough() {
@@ -223,6 +262,12 @@ func runC20(c *ctx) {
 				settings["encryption-key"] = "!!!not base64!!!"
 			case "crlf":
 				settings["encryption-key"] = "\r\n\r\n"
+			case "short31":
+				settings["encryption-key"] = keyN(31)
+			case "long33":
+				settings["encryption-key"] = keyN(33)
+			case "long64":
+				settings["encryption-key"] = keyN(64)
 			}
 			switch sc.ingress {
 			case "https":
@@ -237,6 +282,14 @@ func runC20(c *ctx) {
 				settings["ingress"] = "https:///path-only"
 			case "https+localhost":
 				settings["ingress"] = "https://app.example.com,http://localhost:3000"
+			case "http-localhost-upper":
+				settings["ingress"] = "http://LocalHost:8080"
+			case "http-localhost-prefix":
+				settings["ingress"] = "http://localhost.example.com"
+			case "http-localhost+prefix":
+				settings["ingress"] = "http://localhost:3000,http://localhost.nais.io"
+			case "http-remote":
+				settings["ingress"] = "http://app.example.com"
 			}
 			if sc.clientID {
 				settings["openid.client-id"] = "client-id"
@@ -252,7 +305,7 @@ func runC20(c *ctx) {
 			}
 			switch sc.wellKnown {
 			case "ok":
-				settings["openid.well-known-url"] = disco.URL
+				settings["openid.well-known-url"] = disco.URL + "/" + sc.disco
 			case "unreachable":
 				settings["openid.well-known-url"] = "http://127.0.0.1:1/.well-known/openid-configuration"
 			}
@@ -428,7 +481,7 @@ func runC20(c *ctx) {
 			c.count("start:" + fmtVal(listening))
 			c.emit("start20", "key", sc.key, "ingress", sc.ingress, "clientid", sc.clientID, "jwk", sc.jwk, "secret", sc.secret, "wellknown", sc.wellKnown, "mode", sc.mode, "redis", sc.redis,
 				"cookiename", sc.cookieName, "serverurl", sc.serverURL, "domain", sc.domain, "defaulturl", sc.defaultURL, "secure", sc.secure, "samesite", sc.sameSite, "upstream", sc.upstream,
-				"shutdown", sc.shutdown, "alg", sc.alg, "acr", sc.acr, "locale", sc.locale, "viaenv", sc.viaEnv, "redissecret", sc.redisSecret,
+				"shutdown", sc.shutdown, "alg", sc.alg, "acr", sc.acr, "locale", sc.locale, "viaenv", sc.viaEnv, "redissecret", sc.redisSecret, "disco", sc.disco,
 				"listening", listening, "exitcode", exitCode, "leak", hx(leak), "loglen", len(logs))
 		}()
 	}
